@@ -40,7 +40,7 @@ func init() {
 				dsts = dstTrees(2, true, true, true)
 			} else {
 				srcs = thin(srcs, 40)
-				srcs = append(srcs, "{ @a @b @a }", "{ max %C from { @a @b } @a }", "{ @a allowing overdraft up to %K { 1/2 from @a 1/2 from @b } }")
+				srcs = append(srcs, "{ @a @b }", "{ @a @b @c }", "{ @a @b @a }", "{ max %C from { @a @b } @a }", "{ @a allowing overdraft up to %K { 1/2 from @a 1/2 from @b } }")
 			}
 			for i, s := range srcs {
 				// every source with a plain destination, a rotating richer destination
@@ -54,7 +54,7 @@ func init() {
 					cases = append(cases, apiCase("C03", "send-fixed/two-src", []string{sendFixed("USD", "{ @a @b }", d)}, nil))
 				}
 			}
-			return cases
+			return withObserved(cases, obsEvery(tier))
 		},
 		Bounds: map[string]map[string]interface{}{
 			"quick":    {"statements": 1, "source_leaves": "<=3", "source_depth": "<=2", "destination_clauses": "<=2 (1 cap + remaining), kept anywhere, 2-3 way allotments", "amounts": "unbounded integers"},
@@ -150,7 +150,7 @@ func init() {
 					}
 				}
 			}
-			return cases
+			return withObserved(cases, obsEvery(tier))
 		},
 		Bounds: stdBounds(
 			map[string]interface{}{"statements": "1..2", "source_leaves": "<=3", "depth": "<=2", "destinations": "single account (also an account that is a source)", "numbers": "unbounded integers"},
@@ -206,7 +206,7 @@ func init() {
 			}
 			cases = append(cases, apiCase("C02", "two-assets", []string{"send [EUR *] (\n source = { @a @b }\n destination = { max [EUR 3] to @d remaining kept }\n)", sendFixed("USD", "{ @b @a }", "{ 1/2 to @d 1/2 to @e }"), "send [EUR *] (\n source = @d\n destination = @a\n)"}, nil))
 			cases = append(cases, apiCase("C02", "two-assets", []string{sendFixed("USD", "@a", "@d"), "send [EUR *] (\n source = @a\n destination = @e\n)"}, nil))
-			return cases
+			return withObserved(cases, obsEvery(tier))
 		},
 		Bounds: stdBounds(
 			map[string]interface{}{"statements": "1 (one 2-asset script)", "source_leaves": "<=2", "destination_clauses": "<=3, kept in every position", "numbers": "unbounded integers incl. negative balances and caps"},
@@ -240,7 +240,7 @@ func init() {
 				cases = append(cases, apiCase("C04", "account-variable", []string{sendFixed("USD", "{ $src @a }", "@d")}, map[string][2]string{"src": {"account", "acc:" + alias}}))
 				cases = append(cases, apiCase("C04", "account-variable", []string{sendAll("USD", "{ @b $src }", "@d")}, map[string][2]string{"src": {"account", "acc:" + alias}}))
 			}
-			return cases
+			return withObserved(cases, obsEvery(tier))
 		},
 		Bounds: stdBounds(
 			map[string]interface{}{"statements": 1, "source_leaves": "<=3", "depth": "<=2", "modes": "fixed amount and send-all", "destination": "single account", "numbers": "unbounded integers"},
@@ -275,7 +275,7 @@ func init() {
 				cases = append(cases, apiCase("C05", "send-all-source", []string{sendAll("USD", "{ @a @b }", d)}, nil))
 				cases = append(cases, apiCase("C05", "dest-variable", []string{sendFixed("USD", "@world", "{ max %C to $dst remaining to @d }")}, map[string][2]string{"dst": {"account", "acc:d"}}))
 			}
-			return cases
+			return withObserved(cases, obsEvery(tier))
 		},
 		Bounds: stdBounds(
 			map[string]interface{}{"destination_clauses": "<=3 (2 caps + remaining)", "nesting": "<=2", "kept": "every position", "allotments": "2-3 way", "numbers": "unbounded integers incl. zero/negative/huge caps"},
@@ -315,11 +315,19 @@ func init() {
 					}
 				}
 			}
-			return cases
+			return withObserved(cases, obsEvery(tier))
 		},
 		Bounds: stdBounds(
 			map[string]interface{}{"saves": "1", "sends": "1..2", "numbers": "unbounded integers (balance any sign, saved amount below/equal/above)"},
 			map[string]interface{}{"saves": "1..2", "sends": "1..2, all orders", "numbers": "unbounded integers"}),
 		Assumptions: apiAssumptions, Stubs: apiStubs, Outside: apiOutside,
 	})
+}
+
+// every quick case gets its observed twin; the thorough tiers (thousands of scripts) every fourth
+func obsEvery(tier string) int {
+	if tier == "thorough" {
+		return 4
+	}
+	return 1
 }
